@@ -2,7 +2,7 @@
    Only ExtrOcamlBasic is used: bool, option, unit, list, prod, sumbool map to
    OCaml's; positive/N/Z/nat stay the extracted inductive types. *)
 From Coq Require Extraction ExtrOcamlBasic.
-From PV Require Import Base.Common Model.LabelScope Model.Syntax Model.VarScope Proofs.VarScopeProofs Base.IR Model.Lower Model.Sem Model.Expand Model.Header Model.Containers Model.Layout Model.Literal Gen.Linkage Base.Tok Model.LexAlpha Model.LexDelta Model.Cli Model.RefParser Model.Resolve Model.Cfg Model.Mutability.
+From PV Require Import Base.Common Model.LabelScope Model.Syntax Model.VarScope Proofs.VarScopeProofs Base.IR Model.Lower Model.Sem Model.Expand Model.Header Model.Containers Model.Layout Model.Literal Gen.Linkage Base.Tok Model.LexAlpha Model.LexDelta Model.Cli Model.RefParser Model.Resolve Model.Cfg Model.Mutability Model.DeltaNodes.
 
 Extraction Language OCaml.
 Separate Extraction
@@ -25,6 +25,7 @@ Separate Extraction
   Mutability.check_assignment Mutability.check_address_taken Mutability.use_variable Mutability.uv_codes
   Mutability.fc_body Mutability.fc_stmt Mutability.fc_expr Mutability.fc_decl_type
   Mutability.use_function
+  DeltaNodes.parse_full DeltaNodes.btok_of_code DeltaNodes.capacity
   Containers.run Sem.run_main Expand.expand_sorted Header.build_header Header.header_spec Header.zones_wfb Header.refs_localb
   VarScope.an_program VarScope.spec_program VarScopeProofs.once VarScopeProofs.events
   Syntax.body_codes Syntax.spec_body Syntax.lint_body Syntax.lint_spec_body.
